@@ -51,11 +51,23 @@ func c05Paths(rt *rapid.T) {
 	}
 	desc := func() string { return renderFrame(fc, comp) }
 
+	// reader kinds: seekable in-memory, non-seekable, and short reads in generated chunk sizes (a network connection)
+	chunks := drawChunks(rt)
+	mkReader := func(kind int) io.Reader {
+		br := bytes.NewReader(stream)
+		switch kind {
+		case 0:
+			return br
+		case 1:
+			return onlyReader{br}
+		}
+		return &chunkReader{r: br, chunks: chunks}
+	}
 	// 1. raw frame + conversion
-	r1 := bytes.NewReader(stream)
+	r1 := mkReader(rapid.IntRange(0, 2).Draw(rt, "readerKind1"))
 	raw, err := codec.DecodeRawFrame(r1)
 	if err != nil {
-		rt.Fatalf("DecodeRawFrame: %v\n%s", err, desc())
+		rt.Fatalf("DecodeRawFrame: %v (chunks %v)\n%s", err, chunks, desc())
 	}
 	if ok, n := restIsSentinel(r1); !ok {
 		rt.Fatalf("DecodeRawFrame did not stop at the end of the frame (%d bytes left, want %d)\n%s", n, len(sentinel), desc())
@@ -70,18 +82,19 @@ func c05Paths(rt *rapid.T) {
 	if err != nil {
 		rt.Fatalf("ConvertFromRawFrame: %v\n%s", err, desc())
 	}
-	if d := canon.Diff(F, conv); d != "" {
+	if d := diffFrames(F, conv); d != "" {
 		rt.Fatalf("DecodeRawFrame+ConvertFromRawFrame differs from DecodeFrame: %s\n%s", d, desc())
 	}
 
 	// 2. header + body
-	r2 := bytes.NewReader(stream)
+	cr2 := &countingReader{r: mkReader(rapid.IntRange(0, 2).Draw(rt, "readerKind2"))}
+	var r2 io.Reader = cr2
 	hd, err := codec.DecodeHeader(r2)
 	if err != nil {
 		rt.Fatalf("DecodeHeader: %v", err)
 	}
-	if r2.Len() != len(stream)-h {
-		rt.Fatalf("DecodeHeader consumed %d bytes, header is %d", len(stream)-r2.Len(), h)
+	if cr2.n != h {
+		rt.Fatalf("DecodeHeader consumed %d bytes, header is %d", cr2.n, h)
 	}
 	if d := canon.Diff(F.Header, hd); d != "" {
 		rt.Fatalf("DecodeHeader differs from DecodeFrame's header: %s", d)
@@ -93,19 +106,14 @@ func c05Paths(rt *rapid.T) {
 	if ok, n := restIsSentinel(r2); !ok {
 		rt.Fatalf("DecodeHeader+DecodeBody did not stop at the end of the frame (%d bytes left)\n%s", n, desc())
 	}
-	if d := canon.Diff(F, &frame.Frame{Header: hd, Body: body}); d != "" {
+	if d := diffFrames(F, &frame.Frame{Header: hd, Body: body}); d != "" {
 		rt.Fatalf("DecodeHeader+DecodeBody differs from DecodeFrame: %s\n%s", d, desc())
 	}
 
 	// 3. header + raw body ; 4. header + discard (seekable and not)
-	for _, seekable := range []bool{true, false} {
-		mk := func() (io.Reader, *bytes.Reader) {
-			br := bytes.NewReader(stream)
-			if seekable {
-				return br, br
-			}
-			return onlyReader{br}, br
-		}
+	for kind := 0; kind <= 2; kind++ {
+		seekable := kind == 0
+		mk := func() (io.Reader, int) { return mkReader(kind), kind }
 		r3, _ := mk()
 		hd3, err := codec.DecodeHeader(r3)
 		if err != nil {
@@ -148,7 +156,7 @@ func c05Paths(rt *rapid.T) {
 			rt.Fatalf("ConvertToRawFrame+EncodeRawFrame bytes do not decode: %v\n%s", err, desc())
 		}
 		sameLen(F, d5)
-		if d := canon.Diff(F, d5); d != "" {
+		if d := diffFrames(F, d5); d != "" {
 			rt.Fatalf("ConvertToRawFrame+EncodeRawFrame decodes differently: %s\n%s", d, desc())
 		}
 	}
@@ -174,7 +182,7 @@ func c05Paths(rt *rapid.T) {
 			rt.Fatalf("EncodeHeader+EncodeBody bytes do not decode: %v\n%s", err, desc())
 		}
 		sameLen(F, d6)
-		if d := canon.Diff(F, d6); d != "" {
+		if d := diffFrames(F, d6); d != "" {
 			rt.Fatalf("EncodeHeader+EncodeBody decodes differently: %s\n%s", d, desc())
 		}
 	}
@@ -264,7 +272,7 @@ func c05ReencodeVerdict(args []string, in []byte) string {
 		return fmt.Sprintf("FAIL: bytes decoded to a frame, the frame re-encoded, but the result does not decode: %v\nfirst decode: %s", err, canon.Render(G0))
 	}
 	G0.Header.BodyLength = G2.Header.BodyLength // the computed length may legitimately differ (map order under compression, trailing bytes)
-	if d := canon.Diff(G0, G2); d != "" {
+	if d := diffFrames(G0, G2); d != "" {
 		return fmt.Sprintf("FAIL: decode -> encode -> decode is not stable: %s\nfirst decode: %s", d, canon.Render(G0))
 	}
 	return "OK " + canon.Render(G0)
